@@ -4,7 +4,6 @@ import (
 	"go/ast"
 	"go/token"
 	"go/types"
-	"sort"
 	"strings"
 )
 
@@ -12,8 +11,10 @@ import (
 var terminators = map[string]bool{"log.Panicf": true, "log.Panic": true, "log.Panicln": true, "log.Fatalf": true, "log.Fatal": true,
 	"log.Fatalln": true, "os.Exit": true}
 
-// calls that return a closable value they do not create (getters): never rows
-var accessors = map[string]bool{"currentSSTable": true}
+// calls that return a closable value they do not create (getters): never rows.  Canonical method identities (canon.method);
+// a method / function of the module whose every `return` hands out a field of its receiver / of a parameter or a package
+// variable is recognised as an accessor by its BODY as well (analyzer.isAccessor), whatever it is called
+var accessors = map[string]bool{"simpledb.SSTableManager.currentSSTable": true}
 
 var errorType = types.Universe.Lookup("error").Type()
 
@@ -23,10 +24,13 @@ type analyzer struct {
 	fd      *ast.FuncDecl
 	name    string
 	mod     string
-	aliases map[types.Object]apath // range variables and parameters of literals called on the spot / deferred
-	roots   map[types.Object]bool  // receiver and parameters of the declaration: objects that outlive the call
-	pkgFns  map[string]*ast.FuncDecl
+	aliases map[types.Object]apath  // range variables and parameters of literals called on the spot / deferred
+	roots   map[types.Object]bool   // receiver and parameters of the declaration: objects that outlive the call
 	fnNames map[types.Object]string // function object -> row name (listed functions)
+	cn      *canon                  // rename-stable identities inside this declaration (canon.go)
+	lookup  func(*types.Func) *helperDecl
+	steps   map[*ast.ReturnStmt]step
+	helpers map[*ast.FuncDecl]*analyzer
 }
 
 // ---------------------------------------------------------------------------------------------------------
@@ -41,14 +45,7 @@ func (p apath) key() string {
 	if p.root == nil {
 		return "?"
 	}
-	return p.root.Name() + "#" + itoa(int(p.root.Pos())) + strings.Join(p.segs, "")
-}
-
-func (p apath) String() string {
-	if p.root == nil {
-		return "?"
-	}
-	return p.root.Name() + strings.Join(p.segs, "")
+	return "#" + itoa(int(p.root.Pos())) + strings.Join(p.segs, "") // the declaration's position: no name enters any ordering
 }
 
 func itoa(i int) string {
@@ -288,8 +285,16 @@ func (a *analyzer) owned(t types.Type, depth int) bool {
 	return false
 }
 
+// packages of the module by their module-relative path, others by their import path (as canon.go does)
+var modPath string
+
 func typeString(t types.Type) string {
-	return types.TypeString(t, func(p *types.Package) string { return p.Name() })
+	return types.TypeString(t, func(p *types.Package) string {
+		if p.Path() == modPath {
+			return p.Name()
+		}
+		return strings.TrimPrefix(p.Path(), modPath+"/")
+	})
 }
 
 // qualified name of the function / package-level object an expression denotes ("os.OpenFile"), "" if none
@@ -323,11 +328,10 @@ func (a *analyzer) qualified(e ast.Expr) (string, types.Object) {
 }
 
 func (a *analyzer) isTerminator(c *ast.CallExpr) bool {
-	q, obj := a.qualified(c.Fun)
-	if q == "panic" && obj != nil && obj.Pkg() == nil {
+	if a.isBuiltin(c, "panic") {
 		return true
 	}
-	return terminators[q]
+	return terminators[a.cn.callee(c)]
 }
 
 func (a *analyzer) isBuiltin(c *ast.CallExpr, name string) bool {
@@ -377,23 +381,22 @@ func methodOf(e ast.Expr) string {
 // a call that hands out something that has to be given back
 func (a *analyzer) acquires(c *ast.CallExpr) bool {
 	m := methodOf(c.Fun)
-	if accessors[m] || m == "Close" || m == "Stop" {
+	if m == "Close" || m == "Stop" {
 		return false
 	}
 	for _, t := range a.results(c) {
 		if closable(t) {
-			return true
+			return !accessors[a.cn.method(c)] && !a.isAccessor(c)
 		}
 	}
 	return false
 }
 
 func (a *analyzer) kindOf(c *ast.CallExpr) string {
-	q, _ := a.qualified(c.Fun)
-	switch q {
-	case "os.Open", "os.OpenFile", "os.Create", "os.CreateTemp", "directio.OpenFile":
+	switch a.cn.callee(c) {
+	case "os.Open", "os.OpenFile", "os.Create", "os.CreateTemp", "github.com/ncw/directio.OpenFile":
 		return "file"
-	case "mmap.Open":
+	case "golang.org/x/exp/mmap.Open":
 		return "mmap"
 	case "time.NewTicker", "time.NewTimer":
 		return "ticker"
@@ -468,125 +471,6 @@ func iife(e ast.Expr) *ast.FuncLit {
 	return lit
 }
 
-// conditions of the enclosing if statements / case clauses between n and stop (exclusive), outermost first.  Conjuncts that
-// only test `skip` (a path) against nil are left out.
-func (a *analyzer) condsOf(n ast.Node, stop ast.Node, skip []apath) []string {
-	var out []string
-	child := n
-	for p := a.parents[n]; p != nil && child != stop; child, p = p, a.parents[p] {
-		switch x := p.(type) {
-		case *ast.BlockStmt:
-			// the body of a function literal that starts with `if X == nil { return }`: what follows runs under `X != nil`
-			// (the early-return spelling of `if X != nil { … }`, e.g. the clean-up of SSTableStreamWriter.Open)
-			if _, isLit := a.parents[x].(*ast.FuncLit); isLit && len(x.List) > 0 && child != ast.Node(x.List[0]) {
-				if g := earlyReturnGuard(x.List[0]); g != "" {
-					out = append([]string{g}, out...)
-				}
-			}
-		case *ast.IfStmt:
-			if child == ast.Node(x.Body) {
-				if c := a.condText(x.Cond, skip, false); c != "" {
-					out = append([]string{c}, out...)
-				}
-			} else if x.Else != nil && child == ast.Node(x.Else) {
-				if c := a.condText(x.Cond, skip, true); c != "" {
-					out = append([]string{c}, out...)
-				}
-			}
-		case *ast.CaseClause:
-			var cs []string
-			for _, e := range x.List {
-				cs = append(cs, exprString(e))
-			}
-			if len(cs) == 0 {
-				cs = []string{"default"}
-			}
-			out = append([]string{"case " + strings.Join(cs, ", ")}, out...)
-		case *ast.CommClause:
-			if x.Comm != nil {
-				out = append([]string{"case " + exprString(x.Comm)}, out...)
-			} else {
-				out = append([]string{"default"}, out...)
-			}
-		}
-	}
-	return out
-}
-
-// `if X == nil { return }` (X an identifier, no init, no else, a bare return as the only statement): "X != nil"
-func earlyReturnGuard(s ast.Stmt) string {
-	is, ok := s.(*ast.IfStmt)
-	if !ok || is.Init != nil || is.Else != nil || len(is.Body.List) != 1 {
-		return ""
-	}
-	r, ok := is.Body.List[0].(*ast.ReturnStmt)
-	if !ok || len(r.Results) != 0 {
-		return ""
-	}
-	b, ok := is.Cond.(*ast.BinaryExpr)
-	if !ok || b.Op != token.EQL || !isNil(b.Y) {
-		return ""
-	}
-	id, ok := b.X.(*ast.Ident)
-	if !ok {
-		return ""
-	}
-	return id.Name + " != nil"
-}
-
-func (a *analyzer) isNilGuard(e ast.Expr, skip []apath) bool {
-	b, ok := e.(*ast.BinaryExpr)
-	if !ok || b.Op != token.NEQ {
-		return false
-	}
-	var other ast.Expr
-	if isNil(b.Y) {
-		other = b.X
-	} else if isNil(b.X) {
-		other = b.Y
-	} else {
-		return false
-	}
-	p, ok := a.pathOf(other)
-	if !ok {
-		return false
-	}
-	for _, s := range skip {
-		if s.hasPrefix(p) || p.hasPrefix(s) {
-			return true
-		}
-	}
-	return false
-}
-
-func (a *analyzer) condText(c ast.Expr, skip []apath, negate bool) string {
-	if negate {
-		return "!(" + exprString(c) + ")"
-	}
-	var conj []ast.Expr
-	var split func(e ast.Expr)
-	split = func(e ast.Expr) {
-		if p, ok := e.(*ast.ParenExpr); ok {
-			split(p.X)
-			return
-		}
-		if b, ok := e.(*ast.BinaryExpr); ok && b.Op == token.LAND {
-			split(b.X)
-			split(b.Y)
-			return
-		}
-		conj = append(conj, e)
-	}
-	split(c)
-	var keep []string
-	for _, e := range conj {
-		if !a.isNilGuard(e, skip) {
-			keep = append(keep, exprString(e))
-		}
-	}
-	return strings.Join(keep, " && ")
-}
-
 func (a *analyzer) inLoop(n ast.Node, stop ast.Node) bool {
 	child := n
 	for p := a.parents[n]; p != nil && child != stop; child, p = p, a.parents[p] {
@@ -602,133 +486,4 @@ func (a *analyzer) inLoop(n ast.Node, stop ast.Node) bool {
 		}
 	}
 	return false
-}
-
-// which failing step (or which condition) leads to this return: the call whose error the enclosing `if` tests, else the
-// text of the condition, else "end"
-func (a *analyzer) exitDesc(ret *ast.ReturnStmt) string {
-	if ret == nil {
-		return "end"
-	}
-	var child ast.Node = ret
-	for p := a.parents[ret]; p != nil; child, p = p, a.parents[p] {
-		switch x := p.(type) {
-		case *ast.FuncLit, *ast.FuncDecl:
-			return "end"
-		case *ast.IfStmt:
-			if child != ast.Node(x.Body) && (x.Else == nil || child != ast.Node(x.Else)) {
-				continue
-			}
-			if a.testsError(x.Cond) {
-				if x.Init != nil {
-					if c := firstCall(x.Init); c != nil {
-						return a.stepName(c)
-					}
-				}
-				if prev := a.prevStmt(x); prev != nil {
-					if c := firstCall(prev); c != nil {
-						return a.stepName(c)
-					}
-				}
-			}
-			if child == ast.Node(x.Body) {
-				return exprString(x.Cond)
-			}
-			return "!(" + exprString(x.Cond) + ")"
-		}
-	}
-	return "end"
-}
-
-// the name of a failing step: the callee; for a function literal that is called where it stands, additionally WHICH of its
-// own exits return an error ("func literal: !db.open, db.closed") — so that a step added to or removed from the literal
-// (DB.Close: the WAL rotation no longer returns early since b2bab73) shows in the table
-func (a *analyzer) stepName(c *ast.CallExpr) string {
-	lit := iife(c)
-	if lit == nil {
-		return calleeName(c.Fun)
-	}
-	var descs []string
-	ast.Inspect(lit.Body, func(n ast.Node) bool {
-		r, ok := n.(*ast.ReturnStmt)
-		if !ok || a.enclosingFunc(r) != ast.Node(lit) || len(r.Results) == 0 || isNil(r.Results[len(r.Results)-1]) {
-			return true
-		}
-		descs = addUnique(descs, a.exitDesc(r))
-		return true
-	})
-	return calleeName(c.Fun) + ": " + strings.Join(descs, ", ")
-}
-
-func (a *analyzer) testsError(c ast.Expr) bool {
-	found := false
-	ast.Inspect(c, func(n ast.Node) bool {
-		if id, ok := n.(*ast.Ident); ok {
-			if o := a.info.Uses[id]; o != nil {
-				if _, isVar := o.(*types.Var); isVar && types.Identical(o.Type(), errorType) {
-					found = true
-				}
-			}
-		}
-		return true
-	})
-	return found
-}
-
-func firstCall(s ast.Stmt) *ast.CallExpr {
-	var rhs []ast.Expr
-	switch x := s.(type) {
-	case *ast.AssignStmt:
-		rhs = x.Rhs
-	case *ast.ExprStmt:
-		rhs = []ast.Expr{x.X}
-	case *ast.DeclStmt:
-		if gd, ok := x.Decl.(*ast.GenDecl); ok {
-			for _, sp := range gd.Specs {
-				if vs, ok := sp.(*ast.ValueSpec); ok {
-					rhs = append(rhs, vs.Values...)
-				}
-			}
-		}
-	}
-	for _, e := range rhs {
-		for {
-			p, ok := e.(*ast.ParenExpr)
-			if !ok {
-				break
-			}
-			e = p.X
-		}
-		if c, ok := e.(*ast.CallExpr); ok {
-			return c
-		}
-	}
-	return nil
-}
-
-func (a *analyzer) prevStmt(s ast.Stmt) ast.Stmt {
-	var list []ast.Stmt
-	switch b := a.parents[s].(type) {
-	case *ast.BlockStmt:
-		list = b.List
-	case *ast.CaseClause:
-		list = b.Body
-	case *ast.CommClause:
-		list = b.Body
-	}
-	for i, x := range list {
-		if x == s && i > 0 {
-			return list[i-1]
-		}
-	}
-	return nil
-}
-
-func sortedKeys(m map[string]bool) []string {
-	var out []string
-	for k := range m {
-		out = append(out, k)
-	}
-	sort.Strings(out)
-	return out
 }
